@@ -650,7 +650,7 @@ proof fn lemma_acc_occur(d: DFA, g: Stages)
         forall|s: u32| g.acc2.contains(s) <==> g.acc1.contains(s) && (s == g.start1 || has_in(g.t1, s)),
         g.t3 == kept_out_upto(g.t2, g.acc2, g.t2.len() as int),
     ensures
-        forall|s: u32| g.acc2.contains(s) ==> state_of(g.t3, g.start1, s),
+        forall|s: u32| #![trigger g.acc2.contains(s)] #![trigger state_of(g.t3, g.start1, s)] g.acc2.contains(s) ==> state_of(g.t3, g.start1, s),
         2 * g.t3.len() + 1 < u32::MAX,
 {
     reveal(no_zero);
@@ -663,7 +663,7 @@ proof fn lemma_acc_occur(d: DFA, g: Stages)
     lemma_kept_in(g.t1, g.start1, g.t1.len() as int);
     lemma_kept_out(g.t2, g.acc2, g.t2.len() as int);
     assert(lists_cells(d, g.t1));
-    assert forall|s: u32| g.acc2.contains(s) implies state_of(g.t3, g.start1, s) by {
+    assert forall|s: u32| #![trigger g.acc2.contains(s)] #![trigger state_of(g.t3, g.start1, s)] g.acc2.contains(s) implies state_of(g.t3, g.start1, s) by {
         if s != g.start1 {
             assert(acc_img(d, rep, s));
             let s0 = choose|s0: u32| d.accepting_states@.contains(s0) && #[trigger] rep[s0] == s;
